@@ -176,7 +176,7 @@ CLAIMED["C10"] = dict(
          "its own filename, media type and byte-exact content, nothing beyond them, the text field stays text; Option<File> is None for an empty file input, Some(the file) for exactly one, an error for several; a "
          "single File is that file for exactly one and an error otherwise (never undefined behaviour, never one of several); a file part into a text target and a text field into a file target are errors. The parser "
          "itself on decided templates and enumerated concrete bodies: a malformed body without CRLF before the delimiter is refused, one empty text field, one empty file, a file whose content is one of 10 concrete "
-         "byte strings (empty, ending in CR, CR, CRLF, containing CRLF or dashes, LF, CR CR) followed by a text field (both parts found, content byte-exact), and a body with a text field and three files (parts in submission order).",
+         "byte strings (empty, ending in CR, CR, CRLF, containing CRLF or dashes, LF, CR CR) followed by a text field (both parts found, content byte-exact; the content `a--b` is the open finding KF-C10-dashes-boundary-inside-content), and a body with a text field and three files (parts in submission order).",
     design_ref="DESIGN.md §9.2, §9.3",
     note="NOT under a discharged contract: Multipart::parse with symbolic content bytes or several parts (1-3 symbolic content bytes: timeout / out of memory; ), so that `parts` "
          "are in submission order with byte-exact contents is decided only for the enumerated concrete bodies; optional part headers; the derived field dispatch of the target struct (from_bytes::<T>). core::str::from_utf8 and "
